@@ -3,6 +3,6 @@
 TIER=${1:-quick}; shift
 IDS="$@"; [ -z "$IDS" ] && IDS=$(python3 -c "import json;print(' '.join(c['property_id'] for c in json.load(open('/verif/MANIFEST.json'))['checks']))")
 for id in $IDS; do
-  out=$(/verif/run.sh $id $TIER 2>&1); rc=$?
+  out=$("$(dirname "$(readlink -f "$0")")"/run.sh $id $TIER 2>&1); rc=$?
   echo "rc=$rc $(echo "$out" | grep -c '^VIOLATION') viol | $(echo "$out" | tail -1)"
 done
